@@ -116,7 +116,7 @@ def gen_csr_leaf(rng, dw, max_aw):
             regs.append([rng.choice([1, dw - 1, dw, dw + 3, 2 * dw]), rng.choice(["rw", "rw", "r", "w"]), None])
         return {"t": "bridge", "aw": aw, "regs": regs}, aw
     if k < 0.85:
-        n = rng.choice([1, 3, dw + 1])
+        n = rng.choice([1, 3, dw + 1, 2 * dw + 1])
         al = rng.choice([0, 1])
         size = -(-n // dw)
         aw = 1 + max((size - 1).bit_length(), al)
@@ -161,7 +161,7 @@ def csr_configs(tier, seed, salt=0):
             {"node": {"t": "bridge", "aw": 1, "regs": [[8, "rw", None], [8, "w", None]]}, "name": "a", "addr": None},
             {"node": {"t": "bridge", "aw": 1, "regs": [[8, "rw", None], [8, "r", None]]}, "name": "b", "addr": None}]}},
         {"dw": 16, "root": {"t": "dec", "aw": 7, "align": 0, "children": [
-            {"node": {"t": "evmon", "n": 17, "align": 0}, "name": "irq", "addr": None},
+            {"node": {"t": "evmon", "n": 33, "align": 0}, "name": "irq", "addr": None},
             {"node": {"t": "gpio", "pins": 3, "aw": 4}, "name": "gpio", "addr": None},
             {"node": {"t": "bridge", "aw": 3, "regs": [[40, "rw", 8], [3, "w", None]]}, "name": None, "addr": 0x40}]}},
     ]
@@ -187,7 +187,7 @@ def wb_configs(tier, seed):
             {"t": "csr", "node": {"t": "dec", "aw": 3, "align": 0, "children": [
                 {"node": {"t": "bridge", "aw": 2, "regs": [[8, "rw", None], [16, "w", None]]}, "name": None, "addr": None}]}, "name": "regs"}]},
         {"aw": 5, "dw": 16, "g": 8, "align": 0, "children": [
-            {"t": "csr", "node": {"t": "evmon", "n": 3, "align": 0}, "name": None, "bname": "ev"},
+            {"t": "csr", "node": {"t": "evmon", "n": 20, "align": 0}, "name": None, "bname": "ev"},
             {"t": "sram", "size": 8, "name": None, "addr": 0x20}]},
     ]
     n = 6 if tier == "quick" else 150
